@@ -231,7 +231,7 @@ func runCheck(args []string) int {
 		}
 		unsupported := ""
 		for _, u := range r.stats[hi].Undis {
-			if strings.Contains(u, "unsupported: ") {
+			if strings.Contains(u, "unsupported: ") || strings.Contains(u, "unwinding bound") || strings.Contains(u, "path bound") {
 				unsupported = u
 				break
 			}
